@@ -530,6 +530,7 @@ def run_check(prop: str, tier: str, replay: Optional[str]) -> int:
     sl = sys.modules.get("harness.schedlib")
     if sl is not None and getattr(sl, "FLAKES", {}).get("hangs_retried"):
         ctx.extra["hangs_retried_not_reproduced"] = sl.FLAKES["hangs_retried"]
+        ctx.extra["hang_stacks"] = sl.FLAKES.get("stacks", [])
     nsuites = len(ctx.suites)
     obligations = len(names) + nexamples + nsuites
     ok_suites = sum(1 for s in ctx.suites.values() if s["disagreements"] == 0 and s["violations"] == 0)
